@@ -659,6 +659,31 @@ fn run_export_inner(w: &World, s: &Shape, only: Option<EAlt>) -> Result<ExportOu
 			}
 		}
 	}
+	// --- the block that holds the kernel is reorganised away (nobody re-mines the transaction): the
+	// same proof must be refused by everyone, before and after the wallets look at the chain again
+	{
+		let h = w.node.height();
+		if w.fork(h - 1, 2, "M", &[]) {
+			for stage in ["before-refresh", "after-refresh"].iter() {
+				if *stage == "after-refresh" {
+					let _ = a.refresh();
+					let _ = w.w("B").refresh();
+				}
+				for who in ["A", "B", "M"].iter() {
+					match verify_by(w, who, &proof) {
+						Err(pm) => out.problems.push((panic_key("owner::verify_payment_proof"), format!("verify_payment_proof panicked: {}", pm))),
+						Ok(Ok(f)) => out.problems.push((
+							format!("C11/verify-accepted/kernel-reorganised-away/{}", stage),
+							format!("verify_payment_proof by {} returned Ok({:?}) for the proof of {:?} after the block holding its kernel was reorganised away ({})", who, f, s, stage),
+						)),
+						Ok(Err(e)) => out.labels.push(format!("reorged:{}:verify-refused:{}", stage, err_class(&e).chars().take(40).collect::<String>())),
+					}
+				}
+			}
+		} else {
+			out.observations.push("fork did not become the main chain: reorganised-kernel case not exercised".into());
+		}
+	}
 	// --- not asserted (two fields changed consistently): the sender's signature does not cover the recipient address
 	{
 		let mut q = proof.clone();
